@@ -35,7 +35,8 @@ pub fn run(c: &Case) -> Outcome {
             out.label(if c.compress { "decompress/compressed" } else { "decompress/raw" });
             let raw_expected = w * h * (c.bpp as usize / 8);
             out.nontrivial(if c.compress { !c.data.is_empty() } else { c.data.len() != raw_expected } && (c.bpp == 16 || c.bpp == 32));
-            let ev = BitmapEvent { dest_left: 0, dest_top: 0, dest_right: 0, dest_bottom: 0, width: c.w, height: c.h, bpp: c.bpp, is_compress: c.compress, data: c.data.clone() };
+            let (dl, dt, dr, db) = crate::props::c09::dest_of(c.w as usize * 13 + c.h as usize * 7 + c.data.len(), c.w, c.h);
+            let ev = BitmapEvent { dest_left: dl, dest_top: dt, dest_right: dr, dest_bottom: db, width: c.w, height: c.h, bpp: c.bpp, is_compress: c.compress, data: c.data.clone() };
             let (r, st) = call(move || ev.decompress());
             match r {
                 Res::Ok(v) => {
